@@ -31,10 +31,10 @@ def snapshot(con, tables):
             live_cols = [r[1] for r in con.execute(f"PRAGMA table_info({name})")]
         except sqlite3.Error:
             continue
-        sel = ", ".join(f"typeof({c}), hex({c})" for c in live_cols)
+        sel = ", ".join(f'typeof("{c}"), hex("{c}"), "{c}"' for c in live_cols)
         rows = []
         for row in con.execute(f"SELECT rowid, {sel} FROM {name} ORDER BY rowid"):
-            rows.append((row[0], [(row[1 + 2 * i], row[2 + 2 * i]) for i in range(len(live_cols))]))
+            rows.append((row[0], [(row[1 + 3 * i], row[2 + 3 * i], row[3 + 3 * i]) for i in range(len(live_cols))]))
         snap["tables"][name] = {"cols": live_cols, "rows": rows}
     snap["schema"] = [tuple(r) for r in con.execute("SELECT type, name, tbl_name, rootpage, sql FROM sqlite_master")]
     for p in ("page_count", "freelist_count", "schema_version", "user_version", "application_id", "page_size",
@@ -162,6 +162,9 @@ def make_history(base, cfg, r, n_commits=None, kind=None):
             h.snapshots = [h.snapshots[-1]]
             h.events.append("checkpoint+restart")
         if kind == "passive_checkpoint" and k == n_commits // 2:
+            # a reader holding a snapshot keeps the writer from restarting the log after the checkpoint
+            keeper.execute("BEGIN")
+            keeper.execute("SELECT count(*) FROM sqlite_master").fetchall()
             con.execute("PRAGMA wal_checkpoint(PASSIVE)")
             h.events.append("passive-checkpoint")
             h.passive_at = len(h.snapshots) - 1
